@@ -300,6 +300,97 @@ theorem app_form_meets_spec (P : Params) (hP : FloatSane P) (fs : List Fld) (ivs
   refine ⟨?_, bind_meets_spec P hP Cfg.default .form fs rvs (formSrc h) hw hg hs⟩
   rcases hct with hct | hct <;> simp [appBind, hp, hb, hct]
 
+/-! ### the collecting body model on value sources alone is `bindMultiAll` -/
+
+def toObsAllB : OutAllB → Spec.ObsAllB
+  | .done v es => .done v es
+  | .panic => .panic
+
+def ofOutAll : OutAll → OutAllB
+  | .done v es => .done v (es.map .bind)
+  | .panic => .panic
+
+theorem ofOutAll_prepend (es : List Err) (o : OutAll) : ofOutAll (o.prepend es) = (ofOutAll o).prepend (es.map .bind) := by
+  cases o <;> simp [ofOutAll, OutAll.prepend, OutAllB.prepend]
+
+theorem runStepsAll_values (P : Params) (cfg : Cfg) (fs : List Fld) (vty : Ty) (init : Val) :
+    ∀ (srcs : List Src) (cur : Val),
+      runStepsAll P cfg fs vty init (srcs.map Step.src) cur = ofOutAll (bindPassAll P cfg fs (fun _ => vty) srcs cur)
+  | [], cur => by simp [runStepsAll, bindPassAll, ofOutAll]
+  | s :: rest, cur => by
+    simp only [List.map, runStepsAll, bindPassAll]
+    by_cases ht : hasTagFs s.kind fs = true
+    · simp only [ht, if_true]
+      cases bindAll P cfg s.kind vty cur s with
+      | done v es => simp only; rw [runStepsAll_values P cfg fs vty init rest v, ofOutAll_prepend]
+      | panic => rfl
+    · simp only [ht, Bool.false_eq_true, if_false]
+      exact runStepsAll_values P cfg fs vty init rest cur
+
+theorem bindStepsAll_values_only (P : Params) (cfg : Cfg) (fs : List Fld) (init : Val) (srcs : List Src) :
+    bindStepsAll P cfg fs init (srcs.map Step.src) = ofOutAll (bindMultiAll P cfg fs init srcs) := by
+  unfold bindStepsAll bindMultiAll
+  simp only [filterMap_src_map]
+  cases srcs with
+  | nil => simp [ofOutAll]
+  | cons s rest =>
+    cases rest with
+    | nil =>
+      simp only [List.map, List.isEmpty_cons, Bool.false_eq_true, if_false, List.length_singleton, Nat.le_refl, if_true,
+        beq_self_eq_true]
+      exact runStepsAll_values P cfg fs (.struct fs) init [s] init
+    | cons s2 rest2 =>
+      have hlen : ¬ ((s :: s2 :: rest2).length ≤ 1) := by simp
+      have hne : ((s :: s2 :: rest2).length == 1) = false := by simp
+      simp only [List.isEmpty_cons, Bool.false_eq_true, if_false, hlen, hne]
+      have hmap : (s :: s2 :: rest2).map Step.src = Step.src s :: Step.src s2 :: rest2.map Step.src := rfl
+      cases hb : bindPassAll P cfg fs (fun _ => Ty.struct fs) ((s :: s2 :: rest2).map fun s => { s with kvs := [] }) init with
+      | done v es =>
+        simp only []
+        have := runStepsAll_values P cfg fs (.struct (stripFs fs)) init (s :: s2 :: rest2) v
+        have hemp : ((s :: s2 :: rest2).map Step.src).isEmpty = false := by simp
+        rw [this, ofOutAll_prepend, hemp]
+        simp
+      | panic => simp [ofOutAll]
+
+/-- … and on value sources alone the collecting body model meets the collecting body oracle -/
+theorem bindStepsAll_values_meets_spec (P : Params) (hP : FloatSane P) (cfg : Cfg) (fs : List Fld) (ivs : List Val)
+    (srcs : List Src) (hw : wts fs ivs = true) (hg : Spec.inGrammarFs fs = true) (hs : ∀ s ∈ srcs, Spec.srcOK s = true) :
+    Spec.specStepsAll P cfg fs (.struct ivs) (srcs.map Step.src)
+      (toObsAllB (bindStepsAll P cfg fs (.struct ivs) (srcs.map Step.src))) = true := by
+  rw [bindStepsAll_values_only]
+  have h := bindMultiAll_meets_spec P hP cfg fs ivs srcs hw hg hs
+  cases hb : bindMultiAll P cfg fs (.struct ivs) srcs with
+  | panic => rw [hb] at h; simp [toObsAll, Spec.specMultiAll] at h
+  | done v es =>
+    rw [hb] at h
+    cases es with
+    | nil =>
+      have h' := bindSteps_values_meets_spec P hP cfg fs ivs srcs hw hg hs
+      rw [bindSteps_values_only] at h'
+      have hag := bindMultiAll_agrees P cfg fs (.struct ivs) srcs
+      rw [hb] at hag
+      cases hm : bindMulti P cfg fs (.struct ivs) srcs with
+      | ok w =>
+        rw [hm] at hag h'
+        have hq : OutAll.done v [] = OutAll.done w [] := hag
+        cases hq
+        simpa [ofOutAll, toObsAllB, Spec.specStepsAll, ofOutcome, toBObs] using h'
+      | panic => rw [hm] at hag; cases (hag : OutAll.done v [] = OutAll.panic)
+      | err e =>
+        rw [hm] at hag
+        have hq : OutAll.done v [] = OutAll.panic ∨ ∃ v' es', OutAll.done v [] = OutAll.done v' (e :: es') := hag
+        rcases hq with hq | ⟨_, _, hq⟩ <;> cases hq
+    | cons e0 es' =>
+      simp only [toObsAll, Spec.specMultiAll, List.all_eq_true] at h
+      simp only [ofOutAll, toObsAllB, List.map_cons, Spec.specStepsAll, bodiesOf_map_src, srcsOf_map_src, List.all_nil,
+        Bool.and_true, List.all_eq_true, List.mem_cons, List.mem_map]
+      rintro e (rfl | ⟨e', he', rfl⟩)
+      · have := h e0 (by simp)
+        simpa using this
+      · have := h e' (by simp [he'])
+        simpa using this
+
 /-- a handler that binds once a type without body tags: `bindMulti` over path, query, header, cookie -/
 theorem appRun_no_body_tags (P : Params) (fs : List Fld) (init : Val) (h : Http) (strict : Bool) (hb : h.bodyTags = false) :
     appRun P fs init h [.bind strict] = ofOutcome (bindMulti P Cfg.default fs init h.params) := by
